@@ -430,6 +430,17 @@ def sx_forall_range(interp, args, kwargs, node):
     return interp.call(pred, [SInt(i)], {}, node)
 
 
+def arg_key(v):
+    """identity of an argument value for memoising modular calls (syntactic: same term)"""
+    if isinstance(v, SV):
+        return ('sv', type(v).__name__, v.t.sexpr() if v.t is not None else None)
+    if isinstance(v, (tuple, list)):
+        return (type(v).__name__,) + tuple(arg_key(x) for x in v)
+    if isinstance(v, (int, float, str, bool, type(None))):
+        return ('c', type(v).__name__, repr(v))
+    return ('obj', id(v))
+
+
 def values_equal(interp, a, b):
     """equality of two argument values as a bool / z3 Bool; arrays pointwise at a skolem index"""
     from .arrays import SArr
@@ -533,6 +544,7 @@ class Verifier:
         self.world.external['pyvc.spec.implies'] = Builtin('implies', sx_implies)
         self.world.external['pyvc.spec.same_call'] = Builtin('same_call', sx_same_call)
         self.ghost_calls = []
+        self.modular_memo = {}
         self.contracts = {}       # target -> Contract
         self.active = None        # contract / lemma under verification
         self.modular = {}
@@ -578,6 +590,7 @@ class Verifier:
         sub.floor_cache_seed = dict(outer.floor_cache)   # same term -> same floor variable
         sub.pipe_registry_seed = list(outer.pipe_registry)
         sub.first_choice_seed = dict(outer.first_choice)
+        sub.modular_memo_seed = dict(outer.modular_memo)
         sub.fork_site = outer.fork_site
         sub.fork_counts = outer.fork_counts
         nbase = len(sub.base_pc)
@@ -606,6 +619,7 @@ class Verifier:
         sub.floor_cache_seed = dict(outer.floor_cache)
         sub.pipe_registry_seed = list(outer.pipe_registry)
         sub.first_choice_seed = dict(outer.first_choice)
+        sub.modular_memo_seed = dict(outer.modular_memo)
         nbase = len(outer.pc)
         self.world.explorer = sub
         out = []
@@ -741,12 +755,21 @@ class Verifier:
                 raise PyExc(typ, 'raised by contract of ' + c.name)
         if c.returns is None:
             raise Unsupported(f'modular call of {c.name} without returns domain', node)
+        # a contracted function is a (pure) function of its arguments: the same arguments on the
+        # same path give the same result
+        mkey = (key, tuple(arg_key(v) for v in vals))
+        memo = self.world.explorer.modular_memo      # per path: the result's ensures live in that path's pc
+        if getattr(c, 'pure', True) and mkey in memo:
+            res = memo[mkey]
+            self.ghost_calls.append((key, list(vals), res))
+            return True, res
         res, _ = build_value(self.world, pick_alt(self.world, c.returns),
                              interp.ex.fresh_name(f'{c.name}.ret'))
         for e in c.ensures:
             self.assume_spec(e, vals + [res])
         self.world.trusted.add(f'modular: {key} used by its contract')
         self.ghost_calls.append((key, list(vals), res))
+        memo[mkey] = res
         return True, res
 
     # -- verification of one contract ------------------------------------------------
@@ -826,6 +849,7 @@ class Verifier:
             self.skolems = []
             self.decoders = {}
             self.ghost_calls = []
+            self.modular_memo = {}
             self.scenario_label = label
             self.in_body = False
             args = []
@@ -1021,6 +1045,7 @@ class Verifier:
                 self.skolems = []
                 self.decoders = {}
                 self.ghost_calls = []
+                self.modular_memo = {}
                 self.scenario_label = label
                 self.in_body = True
                 self.entered = True
